@@ -1788,6 +1788,17 @@ class CodeGenerator(NodeVisitor):
             )
             self.outdent()
 
+        # The check above is made before the assignment. A name that is
+        # assigned in the same tuple would be rebound before its attribute
+        # is stored, to an object that was never checked.
+        for name in node.target.find_all(nodes.Name):
+            if name.ctx == "store" and name.name in seen_refs:
+                self.fail(
+                    f"cannot assign to {name.name!r} and to an attribute of it"
+                    " in the same statement",
+                    node.lineno,
+                )
+
         self.newline(node)
         self.visit(node.target, frame)
         self.write(" = ")
